@@ -31,6 +31,8 @@ EvStep ==
        [] e.ev = "Install"   -> Install(e.r, e.len, e.fail) /\ cur' = e.g
        [] e.ev = "InitRet"   -> InitRet(e.r, e.ok)
        [] e.ev = "Shutdown"  -> Shutdown
+       \* the shutdown callback has returned: whatever generator is installed has been stopped or has ended
+       [] e.ev = "ShutdownDone" -> shutdown /\ (IF cur = 0 THEN TRUE ELSE ended[cur] # "run") /\ UNCHANGED vars
        [] e.ev = "NextCall"  -> NextCall(e.r, e.k)
        [] e.ev = "NextRet"   ->
             /\ NextRet(e.r, e.n, e.mk)
